@@ -35,6 +35,16 @@ class BufferCompleteError(Exception):
     pass
 
 
+def _request_received(stream_id: int, headers: List[Tuple[bytes, bytes]]) -> h2.events.RequestReceived:
+    try:
+        return h2.events.RequestReceived(stream_id=stream_id, headers=headers)
+    except TypeError:  # Older h2 versions' events take no arguments
+        event = h2.events.RequestReceived()
+        event.stream_id = stream_id
+        event.headers = headers
+        return event
+
+
 class StreamBuffer:
     def __init__(self, event_class: Type[IOEvent]) -> None:
         self.buffer = bytearray()
@@ -135,9 +145,7 @@ class H2Protocol:
             self.connection.initiate_connection()
         await self._flush()
         if headers is not None:
-            event = h2.events.RequestReceived()
-            event.stream_id = 1
-            event.headers = headers
+            event = _request_received(1, headers)
             await self._create_stream(event)
             await self.streams[event.stream_id].handle(EndBody(stream_id=event.stream_id))
         self.task_group.spawn(self.send_task)
@@ -390,9 +398,7 @@ class H2Protocol:
             # push on a push promises request.
             pass
         else:
-            event = h2.events.RequestReceived()
-            event.stream_id = push_stream_id
-            event.headers = request_headers
+            event = _request_received(push_stream_id, request_headers)
             await self._create_stream(event)
             await self.streams[event.stream_id].handle(EndBody(stream_id=event.stream_id))
             self.keep_alive_requests += 1
